@@ -18,10 +18,18 @@ import (
 )
 
 const (
-	repoDir     = "/repo"
 	verifDir    = "/verif"
 	scratchRoot = "/var/tmp/verif-scratch"
 )
+
+// repoDir is the tree under test: /repo, unless VSIM_REPO points at a scratch
+// worktree (used only by bin/mutant-test to try patches without touching /repo).
+var repoDir = func() string {
+	if d := os.Getenv("VSIM_REPO"); d != "" {
+		return d
+	}
+	return "/repo"
+}()
 
 // Build is the result of preparing a scratch copy of /repo's working tree.
 type Build struct {
